@@ -184,4 +184,30 @@ theorem lengthGate_passes_iff (len : Nat) :
     · exact ⟨-1, (lengthGate_spec len (-1)).mpr ⟨by omega, by omega⟩⟩
     · exact ⟨m, (lengthGate_spec len m).mpr ⟨by omega, by omega⟩⟩
 
+/-! ## spelling independence -/
+
+/-- the output key does not depend on how the internal key is spelled: any SEC form of ±P gives the
+    key of the x-only form `02 ‖ x(P)` -/
+theorem spelling_independent_aux (L : Lawful o G) {H : TagHash} (sec h : Bytes) (P : α) (t : Int)
+    (hP : pointFromOctets o sec = .ok P) (ht : tapTweak o H (xOnly sec) h = .ok t)
+    (hQ : L.abs (tweakPoint o P t) ≠ 0) :
+    tweakedPubkey o H (2 :: xOnly sec) h = tweakedPubkey o H sec h := by
+  obtain ⟨hP0, hPx, hxl⟩ := pointFromOctets_spec L sec P hP
+  obtain ⟨P', hl', hab⟩ := liftX_evenY L L.y_congr P hP0
+  have hxo : xOnly (2 :: xOnly sec) = xOnly sec := by
+    show (xOnly sec).take 32 = xOnly sec
+    exact List.take_of_length_le (by omega)
+  have hpt : pointFromOctets o (2 :: xOnly sec) = .ok P' := by
+    unfold pointFromOctets
+    simp [hxl, hPx, hl']
+  obtain ⟨-, -, hyP'⟩ := L.liftX_some _ _ hl'
+  have hev : evenY o P' = P' := by
+    unfold evenY; rw [if_pos ((hasEvenY_iff P').mpr hyP')]
+  rw [tweakedPubkey_ok sec h P t hP ht, tweakedPubkey_ok (2 :: xOnly sec) h P' t hpt (by rw [hxo]; exact ht)]
+  have habs : L.abs (tweakPoint o P' t) = L.abs (tweakPoint o P t) := by
+    unfold tweakPoint; rw [hev, L.abs_add, L.abs_add, hab]
+  obtain ⟨hcx, hcy⟩ := coords_congr L L.y_congr _ _ habs hQ
+  unfold outKey
+  rw [hcx, hcy]
+
 end Btc.Taproot
